@@ -5,10 +5,10 @@ operations valid; it is not an oracle (the oracle is the Lean spec stream)."""
 import random
 
 KIND_SIZE = {'u8': 1, 'u16': 2, 'u32': 4, 'u64': 8, 'u128': 16, 'u256': 32, 'h256': 32, 'cont': 41,
-             'nestv': 64, 'var': None, 'nest': None, 'nest2': None}
+             'nestv': 64, 'var': None, 'nest': None, 'nest2': None, 'unit': 0}
 PF = {'u8': 32, 'u16': 16, 'u32': 8, 'u64': 4, 'u128': 2, 'u256': 1, 'h256': None, 'cont': None,
-      'nestv': None, 'var': None, 'nest': None, 'nest2': None}
-KINDS = [k for k in KIND_SIZE if k not in ('nest', 'nest2')]   # 'nest' is only compiled for a few capacities
+      'nestv': None, 'var': None, 'nest': None, 'nest2': None, 'unit': None}
+KINDS = [k for k in KIND_SIZE if k not in ('nest', 'nest2', 'unit')]   # 'nest' is only compiled for a few capacities
 NEST_N = [4, 8, 9, 33, 1024]
 NEST2_N = [3, 4, 5, 8, 9, 17]
 MAPS = ['btree', 'vec', 'maxvec', 'maxbtree']
@@ -118,10 +118,17 @@ class Shadow:
         return list(self.s)
 
 
-def aim_index(rng, n, pf=None, invalid=False):
+def aim_index(rng, n, pf=None, invalid=False, cap=None):
     """index into a sequence of length n: boundaries, multiples of pf, powers of two."""
     if invalid:
-        return rng.choice([n, n + 1, n + 2, 2 ** 64 - 1])
+        c = [n, n + 1, n + 2, 2 ** 64 - 1]
+        if cap and rng.random() < 0.35:
+            # at and beyond the capacity of the physical tree (a power of two >= N): an index that
+            # would wrap onto a stored element if only its low bits were used
+            c = [cap, cap + 1, cap + max(n - 1, 0), 2 * cap, 2 * cap + rng.randrange(max(n, 1)), cap * (pf or 1),
+                 cap * (pf or 1) + rng.randrange(max(n, 1)), 2 ** 32 + rng.randrange(max(n, 1)), 2 ** 63]
+            c = [i for i in c if n <= i < 2 ** 64]
+        return rng.choice(c)
     if n == 0:
         return 0
     c = [0, n - 1, n // 2, rng.randrange(n)]
@@ -143,6 +150,7 @@ class HistGen:
         self.kind, self.N, self.map = cfg
         self.cfg = cfg
         self.pf = PF[self.kind]
+        self.cap = 1 << max(self.N - 1, 0).bit_length()      # leaves' positions of the physical tree
         self.sh = Shadow()
         self.lines = [cfg_line(cfg)]
         self.nslots = nslots
@@ -278,7 +286,7 @@ class HistGen:
         if inv and self.map != 'btree' and self.rng.random() < 0.5:
             i = len(c['xs']) + self.rng.choice([0, 1, 2])
         else:
-            i = aim_index(self.rng, len(c['xs']), self.pf, inv)
+            i = aim_index(self.rng, len(c['xs']), self.pf, inv, self.cap)
         x = self.v()
         self.emit('getmut %d %d %s' % (h, i, x))
         if i < len(c['xs']):
@@ -292,7 +300,7 @@ class HistGen:
         h = self.rng.choice(hs)
         c = self.sh.s[h]
         inv = self.rng.random() < self.invalid_rate or not c['xs']
-        i = aim_index(self.rng, len(c['xs']), self.pf, inv)
+        i = aim_index(self.rng, len(c['xs']), self.pf, inv, self.cap)
         act = self.rng.choice(['read', 'intomut', 'makemut', 'makemut2'])
         if act == 'read':
             self.emit('cow %d %d read' % (h, i), 'cow_read')
@@ -382,7 +390,14 @@ class HistGen:
         toks = ['%d%s%s' % (k, '~' if via_entry[k] else ':', v) for k, v in items]
         if dup:
             toks.append('%d:%s' % dup)
-        self.emit('bulk %d %s' % (h, ' '.join(toks)), 'bulk' if admissible else 'bulk_bad')
+        if rng.random() < 0.2:
+            # a pre-sized map (`VecMap::with_capacity`), possibly without any entry
+            if rng.random() < 0.3:
+                toks, kvs, dup = [], {}, None
+            self.emit(('bulkcap %d %d %s' % (h, rng.choice([0, 1, 4, 16, 100]), ' '.join(toks))).rstrip(),
+                      'bulk' if admissible else 'bulk_bad')
+        else:
+            self.emit('bulk %d %s' % (h, ' '.join(toks)), 'bulk' if admissible else 'bulk_bad')
         ok = not c['dirty']
         if ok and kvs:
             keys = sorted(kvs)
@@ -418,7 +433,7 @@ class HistGen:
         c = self.sh.s[h]
         n = len(c['xs'])
         inv = self.rng.random() < self.invalid_rate
-        k = aim_index(self.rng, n + 1, self.pf, inv) if not inv else n + self.rng.choice([1, 2])
+        k = aim_index(self.rng, n + 1, self.pf, inv, self.cap) if not inv else n + self.rng.choice([1, 2])
         if slow:
             self.emit('popslow %d %d' % (h, k))
             if k <= n:
@@ -538,13 +553,13 @@ class HistGen:
         elif r == 4:
             self.emit('iter %d' % h)
         elif r == 5:
-            i = aim_index(self.rng, n + 1, self.pf, inv)
+            i = aim_index(self.rng, n + 1, self.pf, inv, self.cap)
             self.emit('iterfrom %d %d' % (h, i))
         elif r == 6 and c['k'] == 'list':
-            i = aim_index(self.rng, n + 1, self.pf, inv)
+            i = aim_index(self.rng, n + 1, self.pf, inv, self.cap)
             self.emit('levels %d %d' % (h, i))
         else:
-            self.emit('get %d %d' % (h, aim_index(self.rng, n + 1, self.pf, inv)))
+            self.emit('get %d %d' % (h, aim_index(self.rng, n + 1, self.pf, inv, self.cap)))
 
     def op_sszrt(self):
         hs = self.sh.any()
